@@ -1,2 +1,493 @@
-(** C08 - theorem file under construction *)
-From Vivid Require Import Actor.Core.
+(** C08 - supervision applies exactly the decided directive to exactly its targets.
+
+    Model: Actor/Core.v (ActorCore; tied to /repo/internal/actor by lock-step replay, bin/check C08).
+    [dispatch s a x e] is Context.HandleEnvelop of context [a] (record [x]) for envelope [e]: it returns the
+    updated state and the handler's instruction list; [exec1 s t held i] executes one non-yielding
+    instruction of thread [t]; [step] is one step of the machine.  User code is data: the decision maker
+    of a supervisor is the list [a_decisions] (one element is consumed per consulted failure), behaviours
+    are action scripts.  Every theorem below is about ALL states / records / envelopes / scripts /
+    decisions; theorems with [reachable s] hold after every event sequence from every initial script set.
+    Specification-level definitions: Actor/SpecSup.v ([sup_decide], [sup_targets], [sup_sends],
+    [instr_sends], [pick_order], [dead_for], [keeps_mail], ...).  Statements only; proofs in Actor/ProofsSup.v. *)
+From Coq Require Import List NArith ZArith Bool Permutation.
+From Vivid Require Import Actor.Core Actor.CoreRun Actor.SpecSup Actor.ProofsSup.
+Import ListNotations.
+
+(** ============================ (a) the strategy is consulted exactly once ============================ *)
+
+(** a supervision report [MSup c] handled by a live supervisor [x]: with a strategy (1 = one-for-one,
+    2 = one-for-all) exactly one decision is consumed (an exhausted decision script answers Stop); without
+    a strategy (0) the system default Stop applies and nothing is consumed.  The handler is exactly: pause the
+    targets, apply the decision ([ISupPause c d targets []]), end. *)
+Theorem C08_consulted_once s a x e c :
+  e_msg e = MSup c -> dead_for x e = false ->
+  exists d ds targets,
+    dispatch s a x e = (set_actor s a (set_decisions (set_cur x e) ds), [ISupPause c d targets []; IEndHandler]) /\
+    (sp_strategy (a_spec x) = 0%N -> d = DStop /\ ds = a_decisions x) /\
+    (sp_strategy (a_spec x) <> 0%N -> a_decisions x = d :: ds \/ (a_decisions x = [] /\ d = DStop /\ ds = [])) /\
+    (sp_strategy (a_spec x) = 2%N -> targets = map (fun p => RObj (snd p)) (a_children x)) /\
+    (sp_strategy (a_spec x) <> 2%N -> targets = [sc_child c]).
+Proof. exact (consulted_once s a x e c). Qed.
+
+(** a supervisor that is dead (killed, not a zombie) does not supervise: the report is a dead letter *)
+Theorem C08_dead_supervisor_no_supervision s a x e p :
+  dead_for x e = true -> a_parent x = Some p ->
+  dispatch s a x e = (s, [IEnqMb 0 {| e_sys := false; e_sender := root_ref; e_msg := MDeadLetter (e_sys e) (e_msg e) |}; IEnqDone; IEndHandler]).
+Proof. exact (dead_supervisor s a x e p). Qed.
+
+(** ============================ (c) the targets ============================ *)
+
+(** whatever order the pauses are issued in ([pick_order] = any sequence of EvPush choices): one-for-one
+    pauses exactly the failing child, one-for-all exactly the supervisor's current children (each once),
+    whatever the failing child *)
+Theorem C08_targets x c order :
+  pick_order (sup_targets x c) order ->
+  (sp_strategy (a_spec x) <> 2%N -> order = [sc_child c]) /\
+  (sp_strategy (a_spec x) = 2%N -> Permutation (map (fun p => RObj (snd p)) (a_children x)) order).
+Proof. exact (targets_order x c order). Qed.
+
+(** any complete sequence of picks from a Go slice / map is a permutation of it: each element exactly once *)
+Theorem C08_pick_order_permutation (rem order : list rref) : pick_order rem order -> Permutation rem order.
+Proof. exact (pick_order_perm rem order). Qed.
+
+(** ============================ (b) pause, then the directive ============================ *)
+
+(** one pause step of the supervision handler (thread [t]): the chosen remaining target [to] is sent
+    CommandPauseMailbox as a system message from the supervisor; it moves from [rem] to the end of [done] *)
+Theorem C08_pause_step s t k c d rem done rest :
+  pend_of s t = ISupPause c d rem done :: rest -> err (step s (EvPush t k)) = false ->
+  exists to, nth_error rem k = Some to /\
+    step s (EvPush t k) =
+      set_pend (fst (deliver (snd (resolve s to)) (fst (resolve s to)) {| e_sys := true; e_sender := RObj (self_of t); e_msg := MCmdPause |}))
+               t (IEnqDone :: ISupPause c d (remove_nth k rem) (done ++ [to]) :: rest) /\
+    pend_of (step s (EvPush t k)) t = IEnqDone :: ISupPause c d (remove_nth k rem) (done ++ [to]) :: rest.
+Proof. exact (step_ISupPause s t k c d rem done rest). Qed.
+
+(** interleaving: a step performed by another thread leaves the handler's instruction list as it is ... *)
+Theorem C08_handler_not_disturbed s ev t : ev_thread ev <> t -> pend_of (step s ev) t = pend_of s t.
+Proof. exact (step_pend_frame s ev t). Qed.
+
+(** ... so under ANY interleaving the pause phase advances only by the supervisor's own steps: a step leaves
+    the phase's instruction list as it is, or it is the queue insertion of the next pause (EvPush t k: the
+    chosen target moves from [rem] to the end of [done]), or the end of that Enqueue (EvEnqDone t); when
+    nothing remains, the atomic run that follows starts with [ISupPause c d [] done], i.e. it applies the
+    decision to [done] (next theorem).  (EvHandle of the own actor is excluded: a handler is entered only
+    when none is running.) *)
+Theorem C08_pause_phase_interleaved s t c d rem done rest ev :
+  (forall a, t = TA a -> ev <> EvHandle a) -> err (step s ev) = false ->
+  (pend_of s t = ISupPause c d rem done :: rest -> rem <> [] ->
+     pend_of (step s ev) t = ISupPause c d rem done :: rest \/
+     exists k to, ev = EvPush t k /\ nth_error rem k = Some to /\
+        pend_of (step s ev) t = IEnqDone :: ISupPause c d (remove_nth k rem) (done ++ [to]) :: rest) /\
+  (pend_of s t = IEnqDone :: ISupPause c d rem done :: rest ->
+     pend_of (step s ev) t = IEnqDone :: ISupPause c d rem done :: rest \/
+     (ev = EvEnqDone t /\ step s ev = run_atomic FUEL (set_pend s t (ISupPause c d rem done :: rest)) t /\
+      (rem <> [] -> pend_of (step s ev) t = ISupPause c d rem done :: rest))).
+Proof. exact (sup_pause_phase_step s t c d rem done rest ev). Qed.
+
+(** when every target has been paused (in the order [order]) the decision is applied: the instruction list
+    that replaces [ISupApply] tells exactly [apply_sends], i.e. pauses followed by these tells are exactly
+    [sup_sends] for the order chosen; every tell is sent by the supervisor; the supervisor pauses its own
+    mailbox iff the decision is an escalation (Escalate or an out-of-range value); the state is untouched *)
+Theorem C08_pause_then_directive s t held x c d order :
+  get s (self_of t) = Some x ->
+  exec1 s t held (ISupPause c d [] order) = (s, [ISupApply c d order]) /\
+  exists ins, exec1 s t held (ISupApply c d order) = (s, ins) /\
+    map (fun r => (r, true, MCmdPause)) order ++ instr_sends ins = sup_sends (self_of t) x c d order /\
+    (forall i, In i ins -> i = IEnqDone \/ i = IPauseSt \/ exists sys to m, i = IEnq sys to (RObj (self_of t)) m) /\
+    (In IPauseSt ins <-> is_escalation d = true).
+Proof. exact (pause_then_directive s t held x c d order). Qed.
+
+(** what [sup_sends] contains, per decision: Pause (system) to every target; Restart -> RestartMessage
+    (system, not graceful) / GracefulRestart -> RestartMessage (user message, poison) to every target;
+    Stop -> OnKill (system) / GracefulStop -> OnKill (user message, poison) to every target; the graceful
+    directives and Resume -> CommandResumeMailbox (system) to the targets of the whole escalation chain;
+    Escalate / invalid -> one supervision report to the supervisor's own parent, carrying the chain *)
+Theorem C08_directive_shape self x c d order to sys m :
+  In (to, sys, m) (sup_sends self x c d order) ->
+  (In to order /\ m = MCmdPause /\ sys = true) \/
+  (In to order /\ match d with
+                  | DRestart => m = MRestart false /\ sys = true
+                  | DGRestart => m = MRestart true /\ sys = false
+                  | DStop => m = MKill (RObj self) false /\ sys = true
+                  | DGStop => m = MKill (RObj self) true /\ sys = false
+                  | _ => False
+                  end) \/
+  (In to (chain_targets (sc_set_targets c order)) /\ m = MCmdResume /\ sys = true /\
+   match d with DGRestart | DGStop | DResume => True | _ => False end) \/
+  (to = rref_parent x /\ m = MSup (SupCtx (RObj self) [] (Some (sc_set_targets c order))) /\ sys = true /\ is_escalation d = true).
+Proof. exact (sup_sends_shape self x c d order to sys m). Qed.
+
+(** nobody else: every message of the supervision handler goes to a target, to a target of the chain below
+    (the actors paused by the lower levels of an escalation), or to the supervisor's parent *)
+Theorem C08_no_other_target self x c d order to sys m :
+  In (to, sys, m) (sup_sends self x c d order) -> In to (chain_targets (sc_set_targets c order) ++ [rref_parent x]).
+Proof. exact (sup_sends_targets self x c d order to sys m). Qed.
+
+(** ============================ (d) the effect of each directive on a target ============================ *)
+
+(** Restart, first half: a RestartMessage at a running actor marks it restarting, enters the stop sequence
+    (children are stopped, OnKill runs) with everything else untouched *)
+Theorem C08_restart_begins s a x e poison :
+  e_msg e = MRestart poison -> a_state x = Running ->
+  exists x', dispatch s a x e = (set_actor s a x', [IPub evRestarting (actor_key x); IDoKill poison; IEndHandler]) /\
+    stable x x' /\ a_state x' = Killing /\ a_restarting x' = Some poison /\
+    a_cur x' = Some {| e_sys := true; e_sender := e_sender e; e_msg := MKill (RObj a) poison |} /\
+    a_zombie x' = a_zombie x /\ a_children x' = a_children x /\ a_watchers x' = a_watchers x /\ a_stash x' = a_stash x /\
+    a_modes x' = a_modes x /\ a_inst x' = a_inst x /\ a_decisions x' = a_decisions x /\ a_hooks x' = a_hooks x /\
+    same_queues x x'.
+Proof. exact (dispatch_MRestart_running s a x e poison). Qed.
+
+(** a RestartMessage at an actor that is already stopping (or restarting) is dropped: no restart and no change
+    of the actor's data; the mailbox the supervisor paused is resumed (IResume1), and an actor in the middle of a
+    stop passes an immediate kill to its remaining children (code after fix a8829bb) *)
+Theorem C08_restart_ignored_when_stopping s a x e poison :
+  e_msg e = MRestart poison -> a_state x <> Running -> dead_for x e = false ->
+  dispatch s a x e =
+    (set_actor s a (set_cur x e),
+     [IResume1]
+     ++ (match a_state x, a_children x with
+         | Killing, _ :: _ => [IEnqAny true (map (fun p => RObj (snd p)) (a_children x)) (RObj a) (MKill (RObj a) false)]
+         | _, _ => []
+         end)
+     ++ [IEndHandler]).
+Proof. exact (dispatch_MRestart_not_running s a x e poison). Qed.
+
+(** the stop sequence of a restarting actor ends in IRestartFinish instead of ICleanup: no UnsubscribeAll, the
+    registry entry stays, neither the parent nor a watcher is told OnKilled *)
+Theorem C08_restart_no_cleanup s t held x :
+  get s (self_of t) = Some x -> a_children x = [] -> a_state x = Killing ->
+  exists x', exec1 s t held ICheckMark =
+    (set_actor s (self_of t) x',
+     [IBeh (MKilled (RObj (self_of t))) (sp_killed (a_spec x)) RecLog; match a_restarting x with None => ICleanup | Some _ => IRestartFinish end]) /\
+    stable x x' /\ a_state x' = Killed /\ a_restarting x' = a_restarting x /\ a_modes x' = a_modes x /\ a_inst x' = a_inst x /\
+    a_stash x' = a_stash x /\ same_queues x x'.
+Proof. exact (exec1_ICheckMark s t held x). Qed.
+
+(** Restart, second half: the same context (same index = the same reference object, same path, generation,
+    parent, spec; [stable]), the behaviour stack is reset, a new actor instance iff the actor was spawned from
+    a provider, queued mail / stash / children entries / watchers are kept; if the hooks succeed the actor is
+    running again and handles OnLaunch inline, otherwise it becomes a zombie *)
+Theorem C08_restart_keeps_ref_resets_state s t held x :
+  get s (self_of t) = Some x ->
+  exists x' ins, exec1 s t held IRestartFinish = (set_actor s (self_of t) x', ins) /\
+    stable x x' /\ a_modes x' = [0%N] /\
+    a_inst x' = (if sp_provider (a_spec x) then (a_inst x + 1)%N else a_inst x) /\
+    a_hooks x' = tl (a_hooks x) /\ a_stash x' = a_stash x /\ a_children x' = a_children x /\ a_watchers x' = a_watchers x /\
+    a_decisions x' = a_decisions x /\ a_sq x' = a_sq x /\ a_uq x' = a_uq x /\ a_paused x' = a_paused x /\
+    (restart_hooks_ok x = true ->
+       a_state x' = Running /\ a_restarting x' = None /\ a_zombie x' = a_zombie x /\
+       ins = [IResume1; IPub evRestarted (actor_key x); IPub evResumed (actor_key x);
+              IBeh MLaunch (sp_launch (a_spec x)) RecFail; IPub evLaunched (actor_key x)]) /\
+    (restart_hooks_ok x = false ->
+       a_state x' = a_state x /\ a_restarting x' = a_restarting x /\ a_zombie x' = true /\ ins = [IResume1]).
+Proof. exact (exec1_IRestartFinish s t held x). Qed.
+
+(** Stop: OnKill at a running actor starts the stop sequence ... *)
+Theorem C08_stop_begins s a x e k poison :
+  e_msg e = MKill k poison -> a_state x = Running -> a_zombie x = false ->
+  dispatch s a x e = (set_actor s a (set_state (set_cur x e) Killing), [IDoKill poison; IEndHandler]).
+Proof. exact (dispatch_MKill_running s a x e k poison). Qed.
+
+(** ... which passes the kill to every child, runs OnKill, and then tries to confirm the death ... *)
+Theorem C08_stop_kills_children s t held x poison :
+  get s (self_of t) = Some x ->
+  exec1 s t held (IDoKill poison) =
+    (s, (match a_children x with
+         | [] => []
+         | l => [IEnqAny (negb poison) (map (fun p => RObj (snd p)) l) (RObj (self_of t)) (MKill (RObj (self_of t)) poison)]
+         end)
+        ++ [IBeh (match a_cur x with Some e => e_msg e | None => MKill RNone poison end) (sp_kill (a_spec x)) RecLog;
+            IOnKilled (RObj (self_of t))]).
+Proof. exact (exec1_IDoKill s t held x poison). Qed.
+
+(** ... and ends (no child left, not restarting) in ICleanup, which tells the parent OnKilled exactly once
+    (besides UnsubscribeAll, the removal of the registry entry, OnKilled to the watchers, ActorKilledEvent
+    and mailbox.Resume) *)
+Theorem C08_stop_notifies_parent s t held x p :
+  get s (self_of t) = Some x -> a_parent x = Some p ->
+  exec1 s t held ICleanup =
+    (set_reg (set_subs s (unsub_all (subs s) (a_path x))) (aremove (reg s) (a_path x)),
+     (match a_watchers x with
+      | [] => []
+      | l => [IEnqAny true (map snd l) (RObj (self_of t)) (MKilled (RObj (self_of t)))]
+      end)
+     ++ [IEnq true (RObj p) (RObj (self_of t)) (MKilled (RObj (self_of t))); IEnqDone]
+     ++ [IPub evKilled (actor_key x); IResume1]) /\
+  instr_sends (snd (exec1 s t held ICleanup)) = [(RObj p, true, MKilled (RObj (self_of t)))].
+Proof. exact (stop_notifies_parent s t held x p). Qed.
+
+(** Resume: CommandResumeMailbox only resumes the mailbox - the handler is [IResume1] (+ the event), the
+    record changes in its current-envelope field only: state, stash, behaviour stack, instance, queues intact *)
+Theorem C08_resume_only_resumes s a x e :
+  e_msg e = MCmdResume -> dead_for x e = false ->
+  dispatch s a x e = (set_actor s a (set_cur x e), [IResume1; IPub evResumed (actor_key x); IEndHandler]) /\
+  stable x (set_cur x e) /\ same_user_state x (set_cur x e) /\ same_queues x (set_cur x e) /\ a_cons (set_cur x e) = a_cons x.
+Proof. exact (resume_only_resumes s a x e). Qed.
+
+(** the failing message is dropped: it was taken out of the queue before the handler ran (EvUserPop /
+    EvSysPop), and no instruction puts an envelope (back) into a queue: [exec1] leaves every queue (and, except
+    for the explicit Stash / Unstash actions, every stash) as it is ... *)
+Theorem C08_resume_drops_failing_message s t held i :
+  keeps_mail (negb (touches_stash i)) s (fst (exec1 s t held i)).
+Proof. exact (exec1_keeps_mail s t held i). Qed.
+
+(** ... HandleEnvelop itself leaves every queue and stash as it is ... *)
+Theorem C08_dispatch_keeps_mail s a x e : get s a = Some x -> keeps_mail true s (fst (dispatch s a x e)).
+Proof. exact (dispatch_keeps_mail s a x e). Qed.
+
+(** ... the only envelopes handed directly to a mailbox are a fresh TellSelf message and envelopes the user
+    code had stashed, released by Unstash (every other queue insertion is a tell that builds a new envelope:
+    IEnq / IEnqAny / ISupPause), plus HandleEnvelop's dead-letter report to the root *)
+Theorem C08_direct_enqueues s t held i x b e :
+  get s (self_of t) = Some x -> In (b, e) (instr_direct (snd (exec1 s t held i))) ->
+  b = self_of t /\
+  ((exists tag acts, i = IAct (ATellSelf tag acts) /\ e = {| e_sys := false; e_sender := RObj (self_of t); e_msg := MUser tag acts |}) \/
+   (exists n, i = IAct (AUnstash n) /\ In e (a_stash x))).
+Proof. exact (exec1_direct s t held i x b e). Qed.
+
+Theorem C08_dispatch_direct_enqueues s a x e b e' :
+  In (b, e') (instr_direct (snd (dispatch s a x e))) ->
+  dead_for x e = true /\ b = 0 /\ e' = {| e_sys := false; e_sender := root_ref; e_msg := MDeadLetter (e_sys e) (e_msg e) |}.
+Proof. exact (dispatch_direct s a x e b e'). Qed.
+
+(** ============================ (e) failure reports ============================ *)
+
+(** the failure sites: OnLaunch, a user message, an event-stream message run the behaviour with the RecFail
+    recovery; another actor's OnKilled goes through IOnKilled (RecKilled, below) *)
+Theorem C08_failure_sites s a x e :
+  dead_for x e = false ->
+  (e_msg e = MLaunch ->
+     dispatch s a x e = (set_actor s a (set_cur x e), [IBeh MLaunch (sp_launch (a_spec x)) RecFail; IPub evLaunched (actor_key x); IEndHandler])) /\
+  (forall tag acts, e_msg e = MUser tag acts ->
+     dispatch s a x e = (set_actor s a (set_cur x e), [IBeh (MUser tag acts) acts RecFail; IEndHandler])) /\
+  (forall ty payload, e_msg e = MEvent ty payload ->
+     dispatch s a x e = (set_actor s a (set_cur x e), [IBeh (MEvent ty payload) [] RecFail; IEndHandler])) /\
+  (forall who, e_msg e = MKilled who ->
+     dispatch s a x e = (set_actor s a (set_cur x e), [IOnKilled who; IEndHandler])).
+Proof. exact (failure_sites s a x e). Qed.
+
+Theorem C08_child_killed_site s t held x who :
+  get s (self_of t) = Some x -> a_zombie x = false -> ref_eq s who (RObj (self_of t)) = false ->
+  snd (exec1 s t held (IOnKilled who)) = [IBeh (MKilled who) (sp_killed (a_spec x)) (RecKilled who); ICheckMark].
+Proof. exact (exec1_IOnKilled_other s t held x who). Qed.
+
+(** a behaviour run under RecFail: the actions before the first panic (Failed = panic) are performed, then
+    exactly one failure report if the script panics, none otherwise *)
+Theorem C08_failure_reports_once s t held x p m acts :
+  get s (self_of t) = Some x -> a_zombie x = false -> a_parent x = Some p ->
+  exec1 s t held (IBeh m acts RecFail) =
+    (add_obs s (OSeen (self_of t) (a_inst x) (match a_cons x with CBusy md => md | _ => mode_top x end) m),
+     map IAct (fst (take_until_panic acts)) ++ if snd (take_until_panic acts) then [IFailed] else []) /\
+  count_failed (snd (exec1 s t held (IBeh m acts RecFail))) = if snd (take_until_panic acts) then 1 else 0.
+Proof. exact (failure_reports_once_full s t held x p m acts). Qed.
+
+(** a failure report pauses the own mailbox and sends exactly one supervision report, to the parent *)
+Theorem C08_failed_reports_to_parent s t held x :
+  get s (self_of t) = Some x ->
+  exists ins, exec1 s t held IFailed = (s, IPauseSt :: ins) /\
+    instr_sends ins = [(rref_parent x, true, MSup (SupCtx (RObj (self_of t)) [] None))] /\
+    count_sup (instr_sends ins) = 1 /\ count_failed ins = 0.
+Proof. exact (failed_reports_to_parent s t held x). Qed.
+
+(** no supervision while stopping: OnKill and the actor's own OnKilled run under RecLog, which never reports ... *)
+Theorem C08_no_supervision_while_stopping s t held x poison :
+  get s (self_of t) = Some x ->
+  (forall m acts r, In (IBeh m acts r) (snd (exec1 s t held (IDoKill poison))) -> r = RecLog) /\
+  (forall m acts r, In (IBeh m acts r) (snd (exec1 s t held ICheckMark)) -> r = RecLog).
+Proof. exact (stop_sequence_recoveries s t held x poison). Qed.
+
+Theorem C08_no_report_under_RecLog s t held m acts : count_failed (snd (exec1 s t held (IBeh m acts RecLog))) = 0.
+Proof. exact (no_report_RecLog s t held m acts). Qed.
+
+(** ... and a panic in the OnKilled of another actor reports only in state running (and never for the own death) *)
+Theorem C08_no_report_for_killed_while_stopping s t held x m acts who :
+  get s (self_of t) = Some x -> a_state x <> Running \/ ref_eq s who (RObj (self_of t)) = true ->
+  count_failed (snd (exec1 s t held (IBeh m acts (RecKilled who)))) = 0.
+Proof. exact (no_report_RecKilled s t held x m acts who). Qed.
+
+(** the general clause "a failure while an actor is already stopping does not trigger supervision" is FALSE of
+    the code: HandleEnvelop lets system messages through in state killing, and OnLaunch (a system message)
+    runs the behaviour under the reporting recovery.  Partial: for an actor that is not running (and not a
+    zombie) the only handlers that run user code under RecFail are those of system-flagged OnLaunch /
+    user-kind messages in state killing (user-kind messages are never sent with the system flag) ... *)
+Theorem C08_no_supervision_while_stopping_partial s a x e m acts :
+  a_state x <> Running -> a_zombie x = false -> In (IBeh m acts RecFail) (snd (dispatch s a x e)) ->
+  a_state x = Killing /\ e_sys e = true /\
+  (e_msg e = MLaunch \/ (exists tag acts', e_msg e = MUser tag acts') \/ (exists ty pl, e_msg e = MEvent ty pl) \/
+   exists sy inner, e_msg e = MDeadLetter sy inner).
+Proof. exact (stopping_recfail_only_launch s a x e m acts). Qed.
+
+(** ... refuted: a reachable state in which an actor in state killing has just produced a failure report (the
+    pause of its own mailbox and the supervision report to its parent are its next instructions).  Witness
+    ([wit_scripts], [wit_events] in Actor/SpecSup.v): a kill sent through a parsed reference overtakes OnLaunch
+    (ActorOf registers the path before it enqueues OnLaunch - known finding C05-spawn-race-first-message),
+    OnKill spawns a child, so the actor is still killing when its panicking OnLaunch is handled. *)
+Theorem C08_no_supervision_while_stopping_refuted :
+  exists s a x rest, reachable s /\ get s a = Some x /\ a_state x = Killing /\ a_zombie x = false /\
+    a_pend x = IPauseSt :: IEnq true (rref_parent x) (RObj a) (MSup (SupCtx (RObj a) [] None)) :: rest.
+Proof. exact stopping_failure_witness. Qed.
+
+(** escalation ends at the top: the root context (actor 0) has no strategy in every reachable state, so a
+    report that reaches it is answered by the system default: Stop, applied to the reporting top-level actor *)
+Theorem C08_escalation_reaches_root_default s x e c :
+  reachable s -> get s 0 = Some x -> e_msg e = MSup c -> dead_for x e = false ->
+  dispatch s 0 x e = (set_actor s 0 (set_decisions (set_cur x e) (a_decisions x)), [ISupPause c DStop [sc_child c] []; IEndHandler]).
+Proof. exact (root_decides_stop s x e c). Qed.
+
+Theorem C08_root_is_guard s :
+  reachable s -> exists x, get s 0 = Some x /\ a_spec x = root_spec /\ a_parent x = None /\ a_path x = [].
+Proof. exact (root_inv s). Qed.
+
+(** ============================ examples (concrete runs, vm_compute) ============================ *)
+
+Local Open Scope N_scope.
+
+Definition ex_child (n : N) : spec := Spec n [] [] [] 0 [] true [] false.
+
+(** one-for-all supervisor [10] with decision script [Restart] and two children [10;1], [10;2]; an external
+    caller spawns it and sends a panicking message to child 1 *)
+Definition ex_all_sup : spec := Spec 10 [ASpawn (ex_child 1); ASpawn (ex_child 2)] [] [] 2 [DRestart] true [] false.
+Definition ex_all_scripts : list (list action) := [[ASpawn ex_all_sup; ATell (XPath [10; 1]) 7 [APanic]]].
+
+(** ... up to the moment the supervisor has handled the report ... *)
+Definition ex_all_evs1 : list event :=
+  [EvStart 0; EvPush (TX 0) 0; EvSysPop 1; EvHandle 1; EvPush (TA 1) 0; EvEnqDone (TA 1); EvPush (TA 1) 0;
+   EvEnqDone (TA 1); EvSysPop 1; EvLoadPaused 1; EvUserPop 1; EvSysPop 2; EvHandle 2; EvSysPop 2; EvLoadPaused 2;
+   EvUserPop 2; EvSysPop 3; EvHandle 3; EvSysPop 3; EvLoadPaused 3; EvUserPop 3; EvEnqDone (TX 0); EvPush (TX 0) 0;
+   EvSysPop 2; EvLoadPaused 2; EvUserPop 2; EvHandle 2; EvPauseSt (TA 2); EvPush (TA 2) 0; EvSysPop 1]%nat.
+Definition ex_all_evs2 : list event :=
+  [EvHandle 1; EvPush (TA 1) 0; EvEnqDone (TA 1); EvPush (TA 1) 0; EvEnqDone (TA 1); EvPush (TA 1) 0; EvEnqDone (TA 1);
+   EvPush (TA 1) 0; EvEnqDone (TA 1)]%nat.
+(** ... and to quiescence *)
+Definition ex_all_evs3 : list event :=
+  [EvSysPop 1; EvLoadPaused 1; EvUserPop 1; EvEnqDone (TA 2); EvSysPop 2; EvHandle 2; EvPauseSt (TA 2); EvSysPop 2;
+   EvHandle 2; EvResume1 (TA 2); EvResume2 (TA 2); EvSysPop 2; EvLoadPaused 2; EvUserPop 2; EvSysPop 3; EvHandle 3;
+   EvPauseSt (TA 3); EvSysPop 3; EvHandle 3; EvResume1 (TA 3); EvResume2 (TA 3); EvSysPop 3; EvLoadPaused 3;
+   EvUserPop 3; EvEnqDone (TX 0)]%nat.
+
+Definition ex_all_s1 : state := run_events ex_all_evs1 (init_with ex_all_scripts).
+Definition ex_all_s2 : state := run_events ex_all_evs2 ex_all_s1.
+Definition ex_all_s3 : state := run_events ex_all_evs3 ex_all_s2.
+
+(** the hypotheses of [C08_consulted_once] / [C08_targets] hold in a reachable state: the supervisor (actor 1)
+    is about to handle the report of child 1 (actor 2); strategy 2, one decision left, two children *)
+Example C08_ex_report_pending :
+  reachable ex_all_s1 /\
+  exists x e, get ex_all_s1 1 = Some x /\ a_cons x = CH e /\ e_msg e = MSup (SupCtx (RObj 2) [] None) /\ dead_for x e = false /\
+    sp_strategy (a_spec x) = 2 /\ a_decisions x = [DRestart] /\ a_children x = [([10; 1], 2%nat); ([10; 2], 3%nat)].
+Proof.
+  split.
+  - exists ex_all_scripts, ex_all_evs1. split; [reflexivity|vm_compute; reflexivity].
+  - eexists; eexists. vm_compute. repeat split.
+Qed.
+
+(** after the supervisor's handler: the decision is consumed, BOTH children hold exactly Pause then Restart
+    (system messages from the supervisor) - the failing child (actor 2, already paused by its own failure)
+    and its sibling (actor 3) *)
+Example C08_ex_one_for_all_restart :
+  err ex_all_s2 = false /\
+  (exists x, get ex_all_s2 1 = Some x /\ a_decisions x = [] /\ a_pend x = []) /\
+  (exists x, get ex_all_s2 2 = Some x /\ a_paused x = true /\
+     a_sq x = [{| e_sys := true; e_sender := RObj 1; e_msg := MCmdPause |}; {| e_sys := true; e_sender := RObj 1; e_msg := MRestart false |}]) /\
+  (exists x, get ex_all_s2 3 = Some x /\
+     a_sq x = [{| e_sys := true; e_sender := RObj 1; e_msg := MCmdPause |}; {| e_sys := true; e_sender := RObj 1; e_msg := MRestart false |}]).
+Proof. vm_compute. repeat split; eexists; repeat split. Qed.
+
+(** at quiescence both children have been restarted in place (same registry entries, running, not paused,
+    OnKill / OnKilled / OnLaunch observed again at each of them); the failing message is not seen again *)
+Example C08_ex_one_for_all_restarted :
+  err ex_all_s3 = false /\
+  reg ex_all_s3 = [([10], 1%nat); ([10; 1], 2%nat); ([10; 2], 3%nat)] /\
+  map (fun x => (a_state x, a_paused x, a_sq x, a_uq x)) (actors ex_all_s3) =
+    [(Running, false, [], []); (Running, false, [], []); (Running, false, [], []); (Running, false, [], [])] /\
+  olog ex_all_s3 =
+    [OSeen 1 0 0 MLaunch; OSpawn 1 1 0; OSpawn 1 2 0; OSeen 2 0 0 MLaunch; OSeen 3 0 0 MLaunch; OSpawn 0 10 0;
+     OSeen 2 0 0 (MUser 7 [APanic]);
+     OSeen 2 0 0 (MKill (RObj 2) false); OSeen 2 0 0 (MKilled (RObj 2)); OSeen 2 0 0 MLaunch;
+     OSeen 3 0 0 (MKill (RObj 3) false); OSeen 3 0 0 (MKilled (RObj 3)); OSeen 3 0 0 MLaunch].
+Proof. vm_compute. repeat split. Qed.
+
+(** escalation to the root: top-level actor [20] (one-for-one, decision script [Escalate]) with child [20;1];
+    the child fails, [20] escalates, the root's default stops [20] (and with it the child): both are killed,
+    their paths are released, nothing is left paused or queued *)
+Definition ex_esc_top : spec := Spec 20 [ASpawn (ex_child 1)] [] [] 1 [DEscalate] true [] false.
+Definition ex_esc_scripts : list (list action) := [[ASpawn ex_esc_top; ATell (XPath [20; 1]) 7 [APanic]]].
+Definition ex_esc_evs1 : list event :=
+  [EvStart 0; EvPush (TX 0) 0; EvSysPop 1; EvHandle 1; EvPush (TA 1) 0; EvEnqDone (TA 1); EvSysPop 1; EvLoadPaused 1;
+   EvUserPop 1; EvSysPop 2; EvHandle 2; EvSysPop 2; EvLoadPaused 2; EvUserPop 2; EvEnqDone (TX 0); EvPush (TX 0) 0;
+   EvSysPop 2; EvLoadPaused 2; EvUserPop 2; EvHandle 2; EvPauseSt (TA 2); EvPush (TA 2) 0; EvSysPop 1; EvHandle 1;
+   EvPush (TA 1) 0; EvEnqDone (TA 1); EvPauseSt (TA 1); EvPush (TA 1) 0; EvSysPop 0]%nat.
+Definition ex_esc_evs2 : list event :=
+  [EvHandle 0; EvPush (TA 0) 0; EvEnqDone (TA 0); EvPush (TA 0) 0; EvEnqDone (TA 0); EvSysPop 0; EvLoadPaused 0;
+   EvUserPop 0; EvEnqDone (TA 1); EvSysPop 1; EvHandle 1; EvPauseSt (TA 1); EvSysPop 1; EvHandle 1; EvPush (TA 1) 0;
+   EvEnqDone (TA 1); EvSysPop 1; EvLoadPaused 1; EvEnqDone (TA 2); EvSysPop 2; EvHandle 2; EvPauseSt (TA 2); EvSysPop 2;
+   EvHandle 2; EvPush (TA 2) 0; EvSysPop 1; EvHandle 1; EvPush (TA 1) 0; EvSysPop 0; EvHandle 0; EvSysPop 0;
+   EvLoadPaused 0; EvUserPop 0; EvEnqDone (TA 1); EvResume1 (TA 1); EvResume2 (TA 1); EvSysPop 1; EvLoadPaused 1;
+   EvUserPop 1; EvEnqDone (TA 2); EvResume1 (TA 2); EvResume2 (TA 2); EvSysPop 2; EvLoadPaused 2; EvUserPop 2;
+   EvEnqDone (TX 0)]%nat.
+Definition ex_esc_s1 : state := run_events ex_esc_evs1 (init_with ex_esc_scripts).
+Definition ex_esc_s2 : state := run_events ex_esc_evs2 ex_esc_s1.
+
+(** the escalated report is pending at the root: it names [20] (actor 1) as the failing child and carries the
+    original report with its target (the hypotheses of [C08_escalation_reaches_root_default] in a reachable state) *)
+Example C08_ex_escalated_report_at_root :
+  reachable ex_esc_s1 /\
+  exists x e, get ex_esc_s1 0 = Some x /\ a_cons x = CH e /\ dead_for x e = false /\
+    e_msg e = MSup (SupCtx (RObj 1) [] (Some (SupCtx (RObj 2) [RObj 2] None))).
+Proof.
+  split.
+  - exists ex_esc_scripts, ex_esc_evs1. split; [reflexivity|vm_compute; reflexivity].
+  - eexists; eexists. vm_compute. repeat split.
+Qed.
+
+Example C08_ex_escalate_to_root_stops_top :
+  err ex_esc_s2 = false /\ reg ex_esc_s2 = [] /\
+  map (fun x => (a_path x, a_state x, a_paused x, a_sq x, a_uq x)) (actors ex_esc_s2) =
+    [([], Running, false, [], []); ([20], Killed, false, [], []); ([20; 1], Killed, false, [], [])] /\
+  olog ex_esc_s2 =
+    [OSeen 1 0 0 MLaunch; OSpawn 1 1 0; OSeen 2 0 0 MLaunch; OSpawn 0 20 0; OSeen 2 0 0 (MUser 7 [APanic]);
+     OSeen 1 0 0 (MKill (RObj 0) false); OSeen 2 0 0 (MKill (RObj 1) false); OSeen 2 0 0 (MKilled (RObj 2));
+     OSeen 1 0 0 (MKilled (RObj 2)); OSeen 1 0 0 (MKilled (RObj 1))].
+Proof. vm_compute. repeat split. Qed.
+
+(** [pick_order] is inhabited for every list (e.g. slice order) *)
+Example C08_ex_pick_order : pick_order [RObj 2; RObj 3] [RObj 3; RObj 2].
+Proof.
+  apply (pick_cons [RObj 2; RObj 3] 1 (RObj 3) [RObj 2]); [reflexivity|].
+  apply (pick_cons [RObj 2] 0 (RObj 2) []); [reflexivity|]. constructor.
+Qed.
+
+Print Assumptions C08_consulted_once.
+Print Assumptions C08_dead_supervisor_no_supervision.
+Print Assumptions C08_targets.
+Print Assumptions C08_pick_order_permutation.
+Print Assumptions C08_pause_step.
+Print Assumptions C08_handler_not_disturbed.
+Print Assumptions C08_pause_phase_interleaved.
+Print Assumptions C08_pause_then_directive.
+Print Assumptions C08_directive_shape.
+Print Assumptions C08_no_other_target.
+Print Assumptions C08_restart_begins.
+Print Assumptions C08_restart_ignored_when_stopping.
+Print Assumptions C08_restart_no_cleanup.
+Print Assumptions C08_restart_keeps_ref_resets_state.
+Print Assumptions C08_stop_begins.
+Print Assumptions C08_stop_kills_children.
+Print Assumptions C08_stop_notifies_parent.
+Print Assumptions C08_resume_only_resumes.
+Print Assumptions C08_resume_drops_failing_message.
+Print Assumptions C08_dispatch_keeps_mail.
+Print Assumptions C08_direct_enqueues.
+Print Assumptions C08_dispatch_direct_enqueues.
+Print Assumptions C08_failure_sites.
+Print Assumptions C08_child_killed_site.
+Print Assumptions C08_failure_reports_once.
+Print Assumptions C08_failed_reports_to_parent.
+Print Assumptions C08_no_supervision_while_stopping.
+Print Assumptions C08_no_report_under_RecLog.
+Print Assumptions C08_no_report_for_killed_while_stopping.
+Print Assumptions C08_no_supervision_while_stopping_partial.
+Print Assumptions C08_no_supervision_while_stopping_refuted.
+Print Assumptions C08_escalation_reaches_root_default.
+Print Assumptions C08_root_is_guard.
